@@ -452,6 +452,7 @@ func (e *Engine) guardCheckMap(f *Frame, st *State, mv ssa.Value, write bool, po
 
 // ---- sync.Once: ghost "done" flag per Once object; Do(f) runs f at most once over all calls.
 func (e *Engine) onceDo(f *Frame, st *State, cc *ssa.CallCommon, args []Val, pos token.Pos) Val {
+	e.siteCall(f, st, "Once.Do", args, pos)
 	e.assumed["sync.Once runs its function at most once and returns after it completed"] = true
 	key, class, _, _, ok := e.lockKey(f, cc.Args[0])
 	_ = class
